@@ -72,6 +72,57 @@ pub const DICTIONARY: &[&str] = &[
     "x86_64-linux", "v2", "/v2", "/v10", "@v2", "[extra]", "[a,b]", "[]", "+build.1", "-rc.1", "1.0.0", "==1.0", ">=1", "~1", "^1", "@scope", "@latest", "SNAPSHOT",
     "RELEASE", "latest", "${x}", "{{x}}", "$(x)", "`x`", "<x>", "';--", "\\", "\\n", "\r\n", "\t", "..", "../", "..\\", "./", "~", "*", "null", "None", "true", "NaN",
     "0x1F", "1e9", "-0", "golang.org/x", "github.com", "org.apache", "k8s.io", "index.js", "pkg:", "pkg:npm/a", "?a=b", "#a", "&a=b", ";a=b", "==", "a=b=c",
+    "/vendor/", "vendor/", "node_modules/", "/internal/", "/src/", "/pkg/mod/", ".git", "/-/", "/+/", "gitlab.com", "bitbucket.org", "gopkg.in", "gopkg.in/yaml.v2",
+    ":~:", ":~:text=a", "#:~:", "/./", "/../", "/.", "/..", "a/.", "a/..", "0x", "0X", "\u{10}", "\u{19}", "\u{7f}", "\u{200b}", "\u{202e}", "\u{feff}", "\u{2060}",
+    "1.2.3.0", "2.1.0.0.0", "1.0.0.0", "0.0", ".0", "+incompatible", "v1.2.3", "1!2.0", ".post1", "api/v2", "/v3/index.json", "--", "-_-", "__", "..-",
+];
+
+/// Versions in the notations of the ecosystems (what a version-normalising special case would
+/// key on).
+pub const VERSION_VOCABULARY: &[&str] = &[
+    "1.0.0", "1.2.3.0", "2.1.0.0.0", "1.0.0.0.0.0", "1.0", "1", "0", "0.0.0", "01.002.0003", "1.0.0-rc.1+build.5", "1.0.0+build", "1.0.0+a+b", "v1.2.3", "V1.2.3",
+    "1.0.0+incompatible", "v0.0.0-20200101000000-abcdef123456", "1!2.0", "2.0.post1", "1.0a1", "1.0.dev0", "1.0-SNAPSHOT", "1.0.RELEASE", "1.0.Final", "[1.0,2.0)", "^1.2",
+    "~> 1.0", ">=1,<2", "latest", "1.0.0-alpha.beta", "1.0.0-0.3.7", "1.0.0-x.7.z.92", "1.2.3-4", "1_0", "1.0/../2.0", "a/.", "1.0/./x",
+];
+
+/// Namespaces and names as they look in each ecosystem, with hosts and group ids whose letter
+/// case some registries fold.
+pub fn realistic_ns_name(r: &mut Rng, ty: &str) -> (Vec<String>, String) {
+    let flip = |r: &mut Rng, s: &str| -> String {
+        match r.below(4) {
+            0 => s.to_string(),
+            1 => s.to_ascii_uppercase(),
+            2 => {
+                let mut c = s.chars();
+                c.next().map(|f| f.to_ascii_uppercase().to_string() + c.as_str()).unwrap_or_default()
+            },
+            _ => s.chars().map(|c| if r.coin() { c.to_ascii_uppercase() } else { c }).collect(),
+        }
+    };
+    let (ns, name): (&[&str], &[&str]) = match ty {
+        "golang" => (
+            &["github.com/foo", "github.com/go-redis/redis", "golang.org/x", "k8s.io", "gopkg.in", "gitlab.com/a/b", "bitbucket.org/a", "example.com/app/vendor/github.com/foo", "vendor/github.com/foo", "go.uber.org"],
+            &["bar", "v8", "v2", "yaml.v2", "klog", "text", "zap", "Bar"],
+        ),
+        "npm" => (&["@angular", "@babel", "@types", "@Scope", ""], &["core", "cli", "lodash", "node", "JSONStream", "left-pad"]),
+        "maven" => (&["org.apache.commons", "org.springframework.boot", "com.google.guava", "junit", "io.netty"], &["commons-lang3", "guava", "junit", "spring-boot-starter", "g:a"]),
+        "pypi" => (&["", ""], &["Django", "zope.interface", "zope--interface", "requests[security]", "Pillow", "ruamel.yaml", "backports.ssl_match_hostname", "a-_-b"]),
+        "nuget" => (&["", ""], &["Newtonsoft.Json", "EntityFramework", "NUnit", "Microsoft.Extensions.Logging"]),
+        "cargo" => (&["", ""], &["serde", "rand_core", "Inflector", "tokio-util"]),
+        "gem" => (&["", ""], &["rails", "ruby-advisory-db", "RedCloth"]),
+        _ => (&["a/b", "A"], &["n"]),
+    };
+    let ns = r.pick(ns).to_string();
+    let ns: Vec<String> = ns.split('/').filter(|x| !x.is_empty()).map(|x| flip(r, x)).collect();
+    let nm = *r.pick(name);
+    (ns, flip(r, nm))
+}
+
+/// Registry and feed URLs of the ecosystems.
+pub const REGISTRY_URLS: &[&str] = &[
+    "https://repo1.maven.org/maven2", "https://api.nuget.org/v3/index.json", "https://www.nuget.org/api/v2", "https://www.myget.org/F/team/api/v2", "http://e.x/v2/", "https://registry.npmjs.org",
+    "https://npm.pkg.github.com", "https://pypi.org/simple", "https://test.pypi.org/legacy/", "https://rubygems.org", "https://proxy.golang.org", "https://crates.io", "https://index.crates.io",
+    "docker.io/library", "ghcr.io/a/b", "HTTPS://REPO1.MAVEN.ORG/maven2", "repo.spring.io/release",
 ];
 
 /// The values the spec lists for well-known qualifier keys (and a few more of the kind).
@@ -82,7 +133,7 @@ pub fn key_vocabulary(key: &str) -> &'static [&'static str] {
         "platform" => &["java", "ruby", "jruby", "x86_64-linux", "universal-darwin"],
         "arch" => &["x86_64", "amd64", "i386", "arm64", "noarch", "all", "src"],
         "os" => &["linux", "windows", "darwin"],
-        "repository_url" => &["https://repo1.maven.org/maven2", "repo.spring.io/release", "docker.io", "https://e.x/a?b=c&d=e#f"],
+        "repository_url" => REGISTRY_URLS,
         "download_url" => &["https://e.x/n-1.0.tgz", "http://e.x/a%20b", "ftp://e.x/a"],
         "vcs_url" => &["git+https://github.com/a/b.git@abc", "git+ssh://git@e.x/a", "svn+https://e.x/a", "hg+https://e.x", "git://e.x/a.git#v1"],
         "file_name" => &["n-1.0.tgz", "a b.jar", "a/b.zip", "n.tar.gz"],
@@ -94,6 +145,16 @@ pub fn dict_token(r: &mut Rng) -> &'static str {
     *r.pick(DICTIONARY)
 }
 
+/// A dictionary token, one time in three with its ASCII letters in another case.
+pub fn dict_token_cased(r: &mut Rng) -> String {
+    let t = dict_token(r);
+    match r.below(6) {
+        0 => t.to_ascii_uppercase(),
+        1 => t.chars().map(|c| if r.coin() { c.to_ascii_uppercase() } else { c }).collect(),
+        _ => t.to_string(),
+    }
+}
+
 /// A string mixing plain alphanumerics with hostile characters. `hostility` in percent.
 pub fn mixed_string(r: &mut Rng, min: usize, max: usize, hostility: usize) -> String {
     let n = r.range(min, max);
@@ -103,7 +164,7 @@ pub fn mixed_string(r: &mut Rng, min: usize, max: usize, hostility: usize) -> St
             if r.chance(1, 12) {
                 s.push_str(*r.pick(ESCAPE_LOOKALIKES));
             } else if r.chance(1, 12) {
-                s.push_str(dict_token(r));
+                s.push_str(&dict_token_cased(r));
             } else {
                 s.push(hostile_char(r));
             }
@@ -373,6 +434,40 @@ pub fn escape_soup(r: &mut Rng) -> String {
     let c = *r.pick(&ctx);
     let suffix = ["", "", "/n", "@1", "?k=v", "#s", "/n@1?k=v#s"];
     format!("{c}{body}{}", r.pick(&suffix))
+}
+
+/// Every Unicode scalar, raw and percent-encoded, in every syntactic slot whose alphabet is
+/// restricted (scheme, type, key, checksum algorithm and digest, the two digits of an escape).
+/// Returns the number of strings this worker produced.
+pub fn for_each_slot_string(worker: usize, nworkers: usize, f: &mut dyn FnMut(&str)) -> u64 {
+    let mut n = 0u64;
+    for cp in 0..=0x10FFFFu32 {
+        if cp as usize % nworkers != worker {
+            continue;
+        }
+        let Some(c) = char::from_u32(cp) else { continue };
+        let mut buf = [0u8; 4];
+        let enc: String = c.encode_utf8(&mut buf).bytes().map(|b| format!("%{b:02X}")).collect();
+        for x in [c.to_string(), enc] {
+            for s in [
+                format!("pk{x}:t/n"),
+                format!("pkg:t{x}/n"),
+                format!("pkg:{x}t/n"),
+                format!("pkg:t/n?k{x}=v"),
+                format!("pkg:t/n?{x}k=v"),
+                format!("pkg:t/n?checksum=a{x}:00"),
+                format!("pkg:t/n?checksum=a:{x}0"),
+                format!("pkg:t/n?checksum=a:0{x}"),
+                format!("pkg:t/n?checksum=a:00,b:{x}{x}"),
+                format!("pkg:t/n@%{x}0"),
+                format!("pkg:t/n@%4{x}"),
+            ] {
+                n += 1;
+                f(&s);
+            }
+        }
+    }
+    n
 }
 
 // ---------------------------------------------------------------------------------------------
